@@ -1226,6 +1226,7 @@ func Run(r *common.Run) error {
 		return nil
 	}
 	c.concurrent()
+	c.decoded()
 
 	// corpus: the two worked examples of XEP-0115 (§5.2, §5.3) with their published
 	// verification strings, then the minimal witnesses of past failures
